@@ -4,7 +4,7 @@ import ast
 from ..loader import AnalysisError, attr_path, src, walk_no_nested_defs, norm_stmt, call_name
 from ..symx import SymX, show, C, TRUE, FALSE, simp, is_const
 from ..genabs import Game, Poly, Undecided, position_cases, CaseEval, FRESH, P1, P2, PR
-from . import C08, C02
+from . import C08, C02, shared
 
 EXPLANATION = (
     "(1) output template: the text written by write_preamble / write_robot_A/B/C in call order is reconstructed "
@@ -575,7 +575,35 @@ def r6_writer_reader_agreement(ctx, chk, rule="C11.6"):
             chk.ok(rule, where, "game %s: owner names %s are the solver's player constants" % (gname, sorted(owners)))
 
 
+def r7_board_untouched(ctx, chk, rule="C11.5b"):
+    """The manual entry point receives the board from its caller: writing the file must not change it (a flattening that
+    extends the first row in place, a pop while laying out the tiles) - the same board written again, with other probabilities,
+    would describe games of another shape, which the solver's validation refuses."""
+    from ..pointsto import PointsTo
+    roots = [f for f in ctx.prog.all_funcs(("stochastic_game_from_roborta_board.py",)) if not f.cls and f.name == "create_sg_from_board"] + \
+            [f for f in ctx.prog.all_funcs(("roberta_generator.py",)) if not f.cls and f.name == "write_robots"]
+    if not roots:
+        chk.undecided(rule, "-", "entry points create_sg_from_board / write_robots not found")
+        return
+    for g in roots:
+        board = [p for p in g.params if p in ("moves", "rewards", "loose_tiles")]
+        if len(board) != 3:
+            chk.undecided(rule, g.where(), "%s does not take the board as moves / rewards / loose_tiles" % g.short)
+            continue
+        scope = [h for h in ctx.cg.reachable([g])]
+        pt = PointsTo(ctx, {g: {p: (p, 2) for p in board}}, funcs=scope)
+        hits = [e for e in pt.effects if any(pt.is_input(o) for o in e.recv)]
+        if hits:
+            for e in hits[:3]:
+                chk.violation(rule, e.func.where(e.node), "`%s` (reached from %s) modifies the caller's board in place: a second file written from the same board "
+                              "has lists of another length" % (norm_stmt(e.node), g.short), expected="the board is only read while the file is written",
+                              found=norm_stmt(e.node), construct="%s mutates the board" % e.func.short)
+        else:
+            chk.ok(rule, g.where(), "%s and the %d functions it reaches only read the board (%s)" % (g.short, len(scope), ", ".join(board)))
+
+
 def run(ctx, chk):
+    r7_board_untouched(ctx, chk)
     r1b_writes_unconditional(ctx, chk)
     r5_manual_entry(ctx, chk)
     r6_writer_reader_agreement(ctx, chk)
@@ -595,6 +623,13 @@ def run(ctx, chk):
     from . import C06
     C06.r3e_builtin_on_empty(ctx, chk, "C11.pre:C06.3e")
     C06.r3b_constant_subscripts(ctx, chk, "C11.pre:C06.3b")
+    # ... on boards of any accepted size: nothing on the way from the file to the report recurses on the game graph
+    # (a board of a few hundred rows is a chain of that many states; the interpreter allows about 1000 frames)
+    drv = [f for f in ctx.prog.all_funcs(("conditionalrewards.py",)) if not f.cls and f.name in ("main", "run_games")]
+    if not drv:
+        chk.undecided("C11.pre:C06.3d", "-", "driver entry points main / run_games not found")
+    else:
+        shared.rule_no_recursion(ctx, chk, "C11.pre:C06.3d", drv, "the batch driver")
     C15.r1_ranges(ctx, chk, "C11.pre:C15.1")
     C15.r2_order(ctx, chk, "C11.pre:C15.2")
     chk.require_instances("C11.1", 2)
